@@ -960,6 +960,21 @@ _SHIM = {
 }
 
 
+class _NdarrayMeta(type):
+  """`isinstance(x, np.ndarray)` in library code holds for symbolic arrays as
+  it does for the NumPy arrays they stand for."""
+
+  def __instancecheck__(cls, obj):
+    return isinstance(obj, (_real_np.ndarray, SymArray))
+
+  def __subclasscheck__(cls, sub):
+    return issubclass(sub, (_real_np.ndarray, SymArray))
+
+
+class _Ndarray(metaclass=_NdarrayMeta):
+  pass
+
+
 class NumpyProxy:
   """Stands in for the `np` module global of a repo module."""
 
@@ -967,6 +982,8 @@ class NumpyProxy:
     self._cache = {}
 
   def __getattr__(self, name):
+    if name == 'ndarray':
+      return _Ndarray
     real = getattr(_real_np, name)
     if name in _SHIM:
       shim = _SHIM[name]
